@@ -174,6 +174,10 @@ static Type *get_common_type(Type *ty1, Type *ty2) {
 // all fit in an int is promoted to int, even if it is declared
 // unsigned: `-s.u3` is negative and `s.u3 - 8 < 0` is true.
 static Type *promoted_type(Node *node) {
+  // `(s.b = 1)` and `(x, s.b)` have the type of the bit-field too.
+  while ((node->kind == ND_ASSIGN && node->lhs->kind == ND_MEMBER) || node->kind == ND_COMMA)
+    node = (node->kind == ND_ASSIGN) ? node->lhs : node->rhs;
+
   if (node->kind == ND_MEMBER && node->member->is_bitfield && is_integer(node->ty) &&
       node->ty->size <= 4 && node->member->bit_width < 32)
     return ty_int;
